@@ -3,6 +3,7 @@
    construct / exhausted fuel halts it (like break_flag), so errors propagate to the result. *)
 From Sakura.Model Require Import Base Cursor Length Event Song Token LoopMachine LexCore Tie RunRsv.
 From Sakura.Model Require Reserve.
+From Sakura.Model Require Utf8 F32.
 From Sakura.Model Require Cmd.   (* the event shapes of the command arms (property C15): used qualified *)
 From Sakura.Gen Require Import Messages.
 From Coq Require Import String.
@@ -10,6 +11,9 @@ Open Scope string_scope.
 Open Scope Z_scope.
 
 Definition U_RUN_TRACKNO := 20. Definition U_RUN_TIE := 21. Definition U_RUN_VSUB := 22. Definition U_RUN_LOOPCOUNT := 23.
+Definition U_RUN_CHAR := 24. Definition U_RUN_SIZE := 25.
+
+Definition SYSEX_MAX : Z := 100000.
 
 Definition note_len_real (notelen qlen : Z) : Z := Z.quot (notelen * qlen) 100.
    (* (notelen as f32 * qlen as f32 / 100.0) as isize ; exact while notelen*qlen < 2^24 and the quotient < 2^17 *)
@@ -134,6 +138,38 @@ Definition tempo_change (s : song) (tempo : Z) : song :=
                    [as_u8 (Z.land (Z.shiftr mpq 16) 255); as_u8 (Z.land (Z.shiftr mpq 8) 255); as_u8 (Z.land mpq 255)] in
   upd_cur (s_set_time s tempo (s_timesig_frac s) (s_timesig_deno s) (s_measure_shift s)) (fun t => tr_push_event t e).
 
+(* tempo_change_a_to_b: one tempo event every sixteenth note, interpolated in f32
+     v = (a as f32) + (width as f32) * (i as f32 / step_cnt as f32);  tempo_change(song, v as isize);  timepos += step
+   then the target tempo at timepos + len; the pointer is put back.
+   `step` is timebase * 4 / 16: the time base is clamped to 48..32767 where it is set (read_timebase), so the divisor is not 0
+   in any song reached from a source (PipelineP.dims_inv); a song with a time base below 4 is outside the model. *)
+Definition tempo_ramp_value (a width i n : Z) : Z :=
+  F32.f32_to_Z (F32.f32_add (F32.f32_of_Z a) (F32.f32_mul (F32.f32_of_Z width) (F32.f32_div (F32.f32_of_Z i) (F32.f32_of_Z n)))).
+Fixpoint tempo_ramp_loop (s : song) (a width step step_cnt : Z) (idx : list Z) : song :=
+  match idx with
+  | [] => s
+  | i :: r =>
+      let s1 := tempo_change s (tempo_ramp_value a width i step_cnt) in
+      tempo_ramp_loop (upd_cur s1 (fun t => tr_set_timepos t (tr_timepos t + step))) a width step step_cnt r
+  end.
+Definition tempo_change_a_to_b (s : song) (a b len : Z) : res song :=
+  let step := Z.quot (s_timebase s * 4) 16 in
+  if step =? 0 then Unsupported U_RUN_SIZE
+  else if RAMP_MAX <? len then Unsupported U_RUN_LOOPCOUNT        (* a ramp beyond any reasonable size *)
+  else
+    let step_cnt := Z.quot len step in
+    let timepos := tr_timepos (cur_track s) in
+    let s1 := tempo_ramp_loop s a (b - a) step step_cnt (Reserve.zrange step_cnt) in
+    let s2 := tempo_change (upd_cur s1 (fun t => tr_set_timepos t (timepos + len))) b in
+    Ok (upd_cur s2 (fun t => tr_set_timepos t timepos)).
+(* the TempoChange arm: 3 arguments a -> b over len, 2 arguments from the current tempo, otherwise the first argument *)
+Definition exec_tempo_change (s : song) (a : Z) (rest : list Z) : res song :=
+  match rest with
+  | [b; len] => tempo_change_a_to_b s a b len
+  | [len] => tempo_change_a_to_b s (s_tempo s) a len
+  | _ => Ok (tempo_change s a)
+  end.
+
 Definition exec_time_signature (s : song) (args : list Z) : song :=
   match args with
   | a :: b :: _ =>
@@ -182,6 +218,19 @@ Definition song_with_ls (s : song) (ls : lexstate) : song :=
 Definition add_events (s : song) (f : Z -> Z -> list event) : song :=
   let trk := cur_track s in
   upd_cur s (fun t => tr_push_events t (f (tr_timepos trk) (tr_channel trk))).
+
+(* the SysEx arm: no value at all is a runtime error; F0 / F7 are supplied (Cmd.cmd_sysex); the device number is a u8 field *)
+Definition exec_sysex (s : song) (checksum : Z) (args : list Z) : res song :=
+  match args with
+  | [] => Ok (runtime_error s (zs "SysEx : " ++ msg_en_ErrorWrongArguments))
+  | _ =>
+      if SYSEX_MAX <? zlen args then Unsupported U_RUN_SIZE        (* a message beyond any reasonable size *)
+      else Ok (add_events s (fun tp _ => Cmd.cmd_sysex tp args (checksum =? 1)))
+  end.
+(* the GSEffect arm (data[0] of the custom effects exists: read_args_tokens yields at least one argument) *)
+Definition exec_gs_effect (s : song) (tag a : Z) (rest : list Z) : res song :=
+  do evs <- Cmd.cmd_gs_effect (tr_timepos (cur_track s)) (as_u8 (s_device s)) (tr_channel (cur_track s)) tag (a :: rest);
+  Ok (add_events s (fun _ _ => evs)).
 
 (* exec_cc_rpn_nrpn_direct *)
 Definition exec_rpn_direct (s : song) (nrpn : bool) (args : list Z) : song :=
@@ -319,6 +368,23 @@ Section Exec.
         else Ok (upd_cur s (fun t => on_rt t (fun k => Reserve.write_cc_on_time k 11 [v1; v2; l])))
     | TPlay args lineno => exec_play exec_children s args lineno
     | TDefStr name v => Ok (s_set_vars s ((name, def_str_value v) :: s_vars s))
+    | TMetaText ty a =>
+        (* exec_args(..)[0].to_s(): the text, the decimal text of an integer, "" for no value; cut below 128 bytes.
+           The meta type is the tag of the table row (1..7 there; 0..127 without End Of Track (47) is what a meta event can carry);
+           a text with a value that is no Rust `char` is no input of the code *)
+        let txt := marg_to_s a in
+        if (0 <=? ty) && (ty <? 128) && negb (ty =? 47) && forallb Utf8.is_char txt
+        then Ok (add_events s (fun tp _ => Cmd.cmd_meta_text tp ty txt))
+        else Unsupported U_RUN_CHAR
+    | TPort v =>
+        (* trk.port = port (a field nothing reads); FF 21 01 <port as u8> at the pointer of the current track *)
+        Ok (add_events s (fun tp _ => Cmd.cmd_port tp v))
+    | TTempoChange a rest => exec_tempo_change s a rest
+    | TSysEx checksum args => exec_sysex s checksum args
+    | TSysexReset kind => Ok (add_events s (fun tp _ => Cmd.cmd_sysex_reset tp (as_u8 (s_device s)) kind))
+    | TSysExCommand tag args => Ok (add_events s (fun tp _ => Cmd.cmd_sysex_command tp tag args))
+    | TGSEffect tag a rest => exec_gs_effect s tag a rest
+    | TDeviceNumber args => Ok (s_set_device s (as_u8 (nth 0 args 0)))
     end.
 
   Definition step_tok (t : tok) (s : res song) : res song := do sg <- s; step_song t sg.
